@@ -530,3 +530,29 @@ def sibling_defaults(chk, rule, quals, neutral=None, label=None):
         chk.ob(rule, "%s{default %s}" % (label or "~".join(q.split(".")[-1] for q in quals), pn),
                "the siblings have the same default for `%s`%s" % (pn, (" (the neutral value %r)" % (neutral[pn],)) if neutral and pn in neutral else ""), ok,
                derived="; ".join("%s: %r" % (q.split(".")[-1], v) for q, v in sorted(have.items())), loc=first.loc())
+
+
+def leading_zero_tests(chk, rule, fi, base, construct, what="the leading entry", minimum=1):
+    """Every test of one literal position of `base` (a parameter name or dotted attribute text) against a number literal in `fi` is the
+    test of its FIRST entry against ZERO: `base[0] == 0` / `base[0] != 0` (either operand order).  The functions that special-case a
+    leading zero (a zero period, the zero-frequency bin, index 0 of an index array) rely on exactly that test.  One obligation per
+    test; none found -> one inconclusive obligation."""
+    import ast as _ast
+    found = 0
+    for n in _ast.walk(fi.node):
+        if not (isinstance(n, _ast.Compare) and len(n.ops) == 1 and len(n.comparators) == 1):
+            continue
+        for a, b in ((n.left, n.comparators[0]), (n.comparators[0], n.left)):
+            if isinstance(a, _ast.Subscript) and " ".join(_ast.unparse(a.value).split()) == base and isinstance(a.slice, _ast.Constant) and \
+                    type(a.slice.value) is int and isinstance(b, _ast.Constant) and type(b.value) in (int, float):
+                found += 1
+                ok = a.slice.value == 0 and b.value == 0 and isinstance(n.ops[0], (_ast.Eq, _ast.NotEq))
+                chk.ob(rule, "%s{leading-zero test `%s`}" % (construct, " ".join(_ast.unparse(n).split())),
+                       "%s is recognised by `%s[0] == 0` (or `!= 0`), nothing else" % (what, base), ok,
+                       derived="tests position %d against %r with %s" % (a.slice.value, b.value, type(n.ops[0]).__name__), loc=fi.loc(n),
+                       stmt=" ".join(_ast.unparse(n).split()))
+                break
+    if found < minimum:
+        chk.ob(rule, "%s{leading-zero test}" % construct, "a test `%s[0] == 0` is present" % base, False, derived="%d found" % found, inconclusive=True,
+               loc=fi.loc())
+    return found
